@@ -14,7 +14,7 @@ Property theorems (everything else in this file is a helper lemma or a non-vacui
 * keyMatch / keyGet: `keyMatch_spec`, `keyGet_spec` (+ `keyMatch_eq_spec`, `keyGet_eq_spec`: the driver's spec column)
 * glob (ALL patterns and strings, matcher as repaired by F09): `rangeMatch_spec`, `glob_spec`, `glob_denotes`
   (`den_iff`: the executable denotation is the declarative one)
-* keyMatch2 / 3 / 5 (documented-form patterns, single-line keys): `keyMatch2_spec`, `keyMatch3_spec`,
+* keyMatch2 / 3 / 5 (documented-form patterns, EVERY key): `keyMatch2_spec`, `keyMatch3_spec`,
   `keyMatch5_spec`, `dropQuery_spec`, `denK_iff`; through `compile_tokVar` (rewrite ∘ parse, generic in the variable
   syntax: `varSyntax_colon`, `varSyntax_braceLazy`, `varSyntax_braceGreedy`) and `matchNodes_denK`
 * binding (variables end at '/' or the end, `*` last): `keyMatch4_binding`, `keyGet2_binding`, `keyGet3_binding`,
@@ -28,12 +28,13 @@ Property theorems (everything else in this file is a helper lemma or a non-vacui
   `parseV6_mapped`, `parseV6_zone`, `parseV6_zone_empty`, `parseV6_zone_twice`, `parseHextet_toUpper`,
   `parseHextet_toLower`, `parseHextet_zero_cons`, `parseHextet_five`, `parseHextet_lt`
 
-* soundness for EVERY key, line feeds included (after `fix: … anchor the pattern with \Z`, F21-NLa):
-  `keyMatch2_sound`, `keyMatch3_sound`, `keyMatch5_sound` (never raises, never `True` outside the denotation)
+* all of the regex-family theorems hold for EVERY key, line feeds included (after `fix: … anchor the pattern with \Z`,
+  F21-NLa, and `fix: … let '*' match line feeds`, F21-NLb: the regex is compiled with `(?s)`); `keyMatch2_sound`,
+  `keyMatch3_sound`, `keyMatch5_sound` are corollaries (never raises, never `True` outside the denotation)
 
-Hypotheses that are NOT removable on the current code: `noNL k` in the completeness direction (a key without line
-feed; open finding F21-NLb: `*` is rewritten to `.*` and CPython's `.` does not match a line feed), the documented-form predicates (`docTok2`/`tok3`/`tok5 = some _`, `detForm`): outside them `re`'s own
-semantics applies (F21: `keyMatch3 k "*"` raises; `{x}/*{x}`), see the `example`s next to the theorems.
+Hypotheses that are NOT removable: the documented-form predicates (`docTok2`/`tok3`/`tok5 = some _`, `detForm`):
+outside them `re`'s own semantics applies (F21: `keyMatch3 k "*"` raises; `{x}/*{x}`), see the `example`s next to the
+theorems.
 -/
 set_option linter.unusedSimpArgs false
 namespace Casbin.C13
@@ -492,31 +493,16 @@ theorem repL_isSome {α : Type} (ok : Char → Bool) (k : Str → Option α) (cs
       | none => cases hok : ok c <;> simp
       | some x => simp
 
-theorem noNL_cons (c : Char) (s : Str) : noNL (c :: s) = (c != '\n' && noNL s) := by
-  by_cases h : c = '\n'
-  · subst h; simp [noNL]
-  · have h' : ¬ '\n' = c := fun e => h e.symm
-    have e1 : (('\n' : Char) == c) = false := by simp [h']
-    have e2 : (c != '\n') = true := by simp [h]
-    simp [noNL, e2]
-    intro _; exact h'
-
 theorem runB_congr (ok : Char → Bool) (k k' : Str → Bool) (cs : Bool) (s : Str)
-    (h : ∀ x, noNL x = true → k x = k' x) (hs : noNL s = true) : runB ok k cs s = runB ok k' cs s := by
-  induction s generalizing cs with
-  | nil => simp [runB, h [] hs]
-  | cons c s ih =>
-    have hs' : noNL s = true := by rw [noNL_cons] at hs; simp at hs; exact hs.2
-    simp [runB, ih true hs', h (c :: s) hs]
+    (h : ∀ x, k x = k' x) : runB ok k cs s = runB ok k' cs s := by
+  have : k = k' := funext h
+  rw [this]
 
-theorem runB_dot (k : Str → Bool) (s : Str) (hs : noNL s = true) :
+theorem runB_dot (k : Str → Bool) (s : Str) :
     runB Atom.dot.ok k true s = anySuffix k s := by
   induction s with
   | nil => simp [runB, anySuffix]
-  | cons c s ih =>
-    rw [noNL_cons] at hs; simp at hs
-    have hc : Atom.dot.ok c = true := by simp [Atom.ok, hs.1]
-    simp [runB, anySuffix, hc, ih (by simpa using hs.2), Bool.or_comm]
+  | cons c s ih => simp [runB, anySuffix, Atom.ok, ih, Bool.or_comm]
 
 theorem runB_notSlash (k : Str → Bool) (s : Str) :
     runB Atom.notSlash.ok k true s = anyRun k s := by
@@ -534,19 +520,15 @@ def nodeOfV (vn : Node) : KTok → Node
 def vnPlain : Node := { atom := .notSlash, q := .plus, cap := false }
 
 
-theorem atEnd_noNL (s : Str) (hs : noNL s = true) : atEnd s = s.isEmpty := by
-  cases s with
-  | nil => rfl
-  | cons c s =>
-    rw [noNL_cons] at hs; simp at hs
-    simp [atEnd, hs.1]
+theorem atEnd_eq (s : Str) : atEnd s = s.isEmpty := rfl
 
-/-- the matcher on the nodes of a documented-form pattern succeeds exactly on the denoted single-line keys -/
-theorem matchNodes_denK (ts : List KTok) (s : Str) (hs : noNL s = true) :
+/-- the matcher on the nodes of a documented-form pattern succeeds exactly on the denoted keys — EVERY key, line
+    feeds included (`.` is compiled with `(?s)`) -/
+theorem matchNodes_denK (ts : List KTok) (s : Str) :
     (matchNodes (ts.map (nodeOfV vnPlain)) s).isSome = denK ts s := by
   induction ts generalizing s with
   | nil =>
-    simp only [List.map_nil, matchNodes, denK, ← atEnd_noNL s hs]
+    simp only [List.map_nil, matchNodes, denK, ← atEnd_eq s]
     cases atEnd s <;> simp
   | cons t ts ih =>
     cases t with
@@ -554,16 +536,15 @@ theorem matchNodes_denK (ts : List KTok) (s : Str) (hs : noNL s = true) :
       cases s with
       | nil => simp [matchNodes, denK, nodeOfV]
       | cons x s' =>
-        have hs' : noNL s' = true := by rw [noNL_cons] at hs; simp at hs; exact hs.2
         simp only [List.map_cons, matchNodes, nodeOfV, denK, Atom.ok]
-        rw [← ih s' hs']
+        rw [← ih s']
         by_cases hx : x = c
         · subst hx; simp
         · have : (x == c) = false := by simp [hx]
           simp [this]
     | star =>
       simp only [List.map_cons, matchNodes, nodeOfV, denK, Option.isSome_map, repG_isSome]
-      rw [runB_congr _ _ (denK ts) true s (fun x hx => ih x hx) hs, runB_dot _ _ hs]
+      rw [runB_congr _ _ (denK ts) true s (fun x => ih x), runB_dot]
     | var =>
       have e1 : vnPlain.q = .plus := rfl
       have e2 : vnPlain.atom = .notSlash := rfl
@@ -571,9 +552,8 @@ theorem matchNodes_denK (ts : List KTok) (s : Str) (hs : noNL s = true) :
       cases s with
       | nil => simp [runB]
       | cons x s' =>
-        have hs' : noNL s' = true := by rw [noNL_cons] at hs; simp at hs; exact hs.2
         simp only [runB, Bool.false_and, Bool.or_false]
-        rw [runB_congr _ _ (denK ts) true s' (fun x hx => ih x hx) hs', runB_notSlash]
+        rw [runB_congr _ _ (denK ts) true s' (fun x => ih x), runB_notSlash]
         simp [Atom.ok]
 
 /-! ## The regex family, part 2: the rewrite of a documented-form pattern parses to the pattern's nodes -/
@@ -958,18 +938,18 @@ theorem varSyntax_braceGreedy : VarSyntax varLenBraceGreedy where
 /-! ### keyMatch2 / keyMatch3 / keyMatch5 on documented-form patterns -/
 
 /-- common last step: a rewritten pattern that parses to the nodes of `ts` decides `denK ts` -/
-theorem reMatchBody_doc (body : Str) (ts : List KTok) (k : Str) (hk : noNL k = true)
+theorem reMatchBody_doc (body : Str) (ts : List KTok) (k : Str)
     (hp : ∀ fuel, body.length < fuel → parseRe fuel body = .ok (ts.map (nodeOfV vnPlain))) :
     asBool (reMatchBody body k) = .ok (denK ts k) := by
-  simp [asBool, reMatchBody, hp (body.length + 1) (by omega), Out.map, matchNodes_denK ts k hk]
+  simp [asBool, reMatchBody, hp (body.length + 1) (by omega), Out.map, matchNodes_denK ts k]
 
 theorem headOK_ne_star (r : Str) (h : headOK r = true) : r ≠ starStr := by
   intro e; subst e; simp [starStr, headOK, isQuantChar] at h
 
 /-- **keyMatch2**: for every pattern of the documented form (`docTok2 p = some ts`: literals that are not special
-    to `re`, `*` directly after '/', or alone, `:name` up to the next '/') and every single-line key, the function
+    to `re`, `*` directly after '/', or alone, `:name` up to the next '/') and EVERY key, the function
     answers exactly the denotation: `*` = any text, `:name` = one non-empty run without '/'. Never raises. -/
-theorem keyMatch2_spec (k p : Str) (ts : List KTok) (hdoc : docTok2 p = some ts) (hk : noNL k = true) :
+theorem keyMatch2_spec (k p : Str) (ts : List KTok) (hdoc : docTok2 p = some ts) :
     keyMatch2 k p = .ok (denK ts k) := by
   unfold docTok2 at hdoc
   split at hdoc
@@ -977,7 +957,7 @@ theorem keyMatch2_spec (k p : Str) (ts : List KTok) (hdoc : docTok2 p = some ts)
     simp at hdoc; subst hdoc
     have hr : rewrite2 ['*'] = capAll := by decide
     have hparse : parseRe (capAll.length + 1) capAll = .ok [{ atom := .dot, q := .star, cap := true }] := by decide
-    have := matchNodes_denK [.star] k hk
+    have := matchNodes_denK [.star] k
     simp only [List.map_cons, List.map_nil, nodeOfV, matchNodes, Option.isSome_map] at this
     simp only [keyMatch2, hr, asBool, reMatchBody, hparse, Out.map, matchNodes, Option.isSome_map, this]
   · obtain ⟨hH, hP⟩ := compile_tokVar varLenColon okAny reNotSlashEsc vnPlain varSyntax_colon
@@ -985,24 +965,24 @@ theorem keyMatch2_spec (k p : Str) (ts : List KTok) (hdoc : docTok2 p = some ts)
     have hr : rewrite2 p = subVar varLenColon reNotSlashEsc 0 (replSlashStar p) := by
       simp [rewrite2, headOK_ne_star _ hH]
     rw [keyMatch2, hr]
-    exact reMatchBody_doc _ ts k hk hP
+    exact reMatchBody_doc _ ts k hP
 
 /-- **keyMatch3**: as keyMatch2 with `{name}` (up to the first `}` of its segment) as the variable syntax -/
-theorem keyMatch3_spec (k p : Str) (ts : List KTok) (hdoc : tok3 p = some ts) (hk : noNL k = true) :
+theorem keyMatch3_spec (k p : Str) (ts : List KTok) (hdoc : tok3 p = some ts) :
     keyMatch3 k p = .ok (denK ts k) := by
   obtain ⟨_, hP⟩ := compile_tokVar varLenBraceLazy okAny reNotSlashEsc vnPlain varSyntax_braceLazy
     parseItem_notSlashEsc '[' _ rfl (by decide) 0 p ts hdoc (by simp [noSlash])
   rw [keyMatch3, rewrite3]
-  exact reMatchBody_doc _ ts k hk hP
+  exact reMatchBody_doc _ ts k hP
 
 /-- **keyMatch5**: as keyMatch3 (`{name}`, the name without braces) after the query string of the key
     (everything from the first `?`) has been dropped -/
-theorem keyMatch5_spec (k p : Str) (ts : List KTok) (hdoc : tok5 p = some ts) (hk : noNL (dropQuery k) = true) :
+theorem keyMatch5_spec (k p : Str) (ts : List KTok) (hdoc : tok5 p = some ts) :
     keyMatch5 k p = .ok (denK ts (dropQuery k)) := by
   obtain ⟨_, hP⟩ := compile_tokVar varLenBraceGreedy okBraceName reNotSlash vnPlain varSyntax_braceGreedy
     parseItem_notSlash '[' _ rfl (by decide) 0 p ts hdoc (by simp [noSlash])
   rw [keyMatch5, rewrite5]
-  exact reMatchBody_doc _ ts (dropQuery k) hk hP
+  exact reMatchBody_doc _ ts (dropQuery k) hP
 
 /-- the query string is dropped at the first `?` -/
 theorem dropQuery_spec (k : Str) :
@@ -2563,31 +2543,19 @@ theorem pickGroup_spec (v : Str) (names caps : List Str) (h : names.length = cap
 
 /-! ## Captures: for patterns whose variables end at a '/' (or at the end) the match is unique -/
 
-theorem noNL_drop (s : Str) (n : Nat) (h : noNL s = true) : noNL (s.drop n) = true := by
-  induction s generalizing n with
-  | nil => simp [noNL]
-  | cons c s ih =>
-    cases n with
-    | zero => exact h
-    | succ n =>
-      rw [noNL_cons] at h; simp at h
-      simpa using ih n (by simpa using h.2)
-
 theorem repG_seg {α : Type} (k : Str → Option α)
-    (hk : ∀ c x, c ≠ '/' → noNL (c :: x) = true → k (c :: x) = none) (cs : Bool) (s : Str)
-    (hs : noNL s = true) :
+    (hk : ∀ c x, c ≠ '/' → k (c :: x) = none) (cs : Bool) (s : Str) :
     repG Atom.notSlash.ok k cs s =
       (if (takeSeg s).isEmpty && !cs then none
        else (k (s.drop (takeSeg s).length)).map (fun r => (takeSeg s, r))) := by
   induction s generalizing cs with
   | nil => cases cs <;> simp [repG, takeSeg]
   | cons c s ih =>
-    have hs' : noNL s = true := by rw [noNL_cons] at hs; simp at hs; simpa using hs.2
     by_cases hc : c = '/'
     · subst hc
       cases cs <;> simp [repG, takeSeg, Atom.ok]
     · have hok : Atom.notSlash.ok c = true := by simp [Atom.ok, hc]
-      simp only [repG, hok, if_true, ih true hs', takeSeg, hc, if_false, List.isEmpty_cons, Bool.false_and,
+      simp only [repG, hok, if_true, ih true, takeSeg, hc, if_false, List.isEmpty_cons, Bool.false_and,
         Bool.and_false, Bool.not_true, List.length_cons, List.drop_succ_cons, Option.map_map,
         Bool.false_eq_true]
       cases hkd : k (s.drop (takeSeg s).length) with
@@ -2596,26 +2564,24 @@ theorem repG_seg {α : Type} (k : Str → Option α)
         simp only [Option.map_none]
         cases cs
         · rfl
-        · simp [hk c s hc hs]
+        · simp [hk c s hc]
 
 theorem repL_seg {α : Type} (k : Str → Option α)
-    (hk : ∀ c x, c ≠ '/' → noNL (c :: x) = true → k (c :: x) = none) (cs : Bool) (s : Str)
-    (hs : noNL s = true) :
+    (hk : ∀ c x, c ≠ '/' → k (c :: x) = none) (cs : Bool) (s : Str) :
     repL Atom.notSlash.ok k cs s =
       (if (takeSeg s).isEmpty && !cs then none
        else (k (s.drop (takeSeg s).length)).map (fun r => (takeSeg s, r))) := by
   induction s generalizing cs with
   | nil => cases cs <;> simp [repL, takeSeg]
   | cons c s ih =>
-    have hs' : noNL s = true := by rw [noNL_cons] at hs; simp at hs; simpa using hs.2
     by_cases hc : c = '/'
     · subst hc
       cases cs
       · simp [repL, takeSeg, Atom.ok]
       · cases hkd : k ('/' :: s) <;> simp [repL, takeSeg, Atom.ok, hkd]
     · have hok : Atom.notSlash.ok c = true := by simp [Atom.ok, hc]
-      have hkc : k (c :: s) = none := hk c s hc hs
-      simp only [repL, hkc, Option.map_none, hok, if_true, ih true hs', takeSeg, hc, if_false,
+      have hkc : k (c :: s) = none := hk c s hc
+      simp only [repL, hkc, Option.map_none, hok, if_true, ih true, takeSeg, hc, if_false,
         List.isEmpty_cons, Bool.false_and, Bool.and_false, Bool.not_true, List.length_cons,
         List.drop_succ_cons, Option.map_map, Bool.false_eq_true]
       cases cs <;> simp [Function.comp_def]
@@ -2629,20 +2595,13 @@ theorem repG_all {α : Type} (ok : Char → Bool) (k : Str → Option α) (s : S
     have h2 := ih (fun d hd => hok d (by simp [hd]))
     simp [repG, h1, h2]
 
-theorem noNL_mem (s : Str) (h : noNL s = true) : ∀ c ∈ s, Atom.dot.ok c = true := by
-  intro c hc
-  simp only [Atom.ok, bne_iff_ne, ne_eq]
-  intro e; subst e
-  simp [noNL] at h
-  exact h hc
-
 /-- with a capturing variable node (`([^/]+)` or `([^/]+?)`) the first successful match of a pattern in
-    `detForm` binds exactly the segments `capsOf` computes -/
+    `detForm` binds exactly the segments `capsOf` computes — for EVERY key -/
 theorem matchNodes_caps (q : Quant) (hq : q = .plus ∨ q = .plusLazy) (ts : List KTok) (s : Str)
-    (hd : detForm ts = true) (hs : noNL s = true) :
+    (hd : detForm ts = true) :
     matchNodes (ts.map (nodeOfV { atom := .notSlash, q := q, cap := true })) s = capsOf ts s := by
   induction ts generalizing s with
-  | nil => simp only [List.map_nil, matchNodes, capsOf, atEnd_noNL s hs]
+  | nil => simp [matchNodes, capsOf, atEnd_eq s]
   | cons t ts ih =>
     cases t with
     | lit c =>
@@ -2650,8 +2609,7 @@ theorem matchNodes_caps (q : Quant) (hq : q = .plus ∨ q = .plusLazy) (ts : Lis
       cases s with
       | nil => simp [matchNodes, capsOf, nodeOfV]
       | cons x s' =>
-        have hs' : noNL s' = true := by rw [noNL_cons] at hs; simp at hs; simpa using hs.2
-        simp only [List.map_cons, matchNodes, nodeOfV, capsOf, Atom.ok, ih s' hd' hs']
+        simp only [List.map_cons, matchNodes, nodeOfV, capsOf, Atom.ok, ih s' hd']
         by_cases hx : x = c
         · subst hx; simp [Option.map_map, Function.comp_def]
         · have : (x == c) = false := by simp [hx]
@@ -2659,18 +2617,18 @@ theorem matchNodes_caps (q : Quant) (hq : q = .plus ∨ q = .plusLazy) (ts : Lis
     | star =>
       have hts : ts = [] := by simpa [detForm] using hd
       subst hts
-      have := repG_all Atom.dot.ok (matchNodes []) s [] (noNL_mem s hs) (by simp [matchNodes, atEnd])
+      have := repG_all Atom.dot.ok (matchNodes []) s [] (fun _ _ => rfl) (by simp [matchNodes, atEnd])
       simp [matchNodes, nodeOfV, capsOf]
       exact ⟨s, by simpa [matchNodes] using this⟩
     | var =>
       simp only [detForm, Bool.and_eq_true] at hd
       obtain ⟨hnext, hd'⟩ := hd
-      have hk : ∀ c x, c ≠ '/' → noNL (c :: x) = true →
+      have hk : ∀ c x, c ≠ '/' →
           matchNodes (ts.map (nodeOfV { atom := .notSlash, q := q, cap := true })) (c :: x) = none := by
-        intro c x hc hn
+        intro c x hc
         cases ts with
         | nil =>
-          have : atEnd (c :: x) = false := by rw [atEnd_noNL _ hn]; rfl
+          have : atEnd (c :: x) = false := rfl
           simp [matchNodes, this]
         | cons t' ts' =>
           cases t' with
@@ -2691,13 +2649,13 @@ theorem matchNodes_caps (q : Quant) (hq : q = .plus ∨ q = .plusLazy) (ts : Lis
         simp only [capsOf, Bool.not_false, Bool.and_true]
         split
         · rfl
-        · rw [ih _ hd' (noNL_drop s _ hs)]
+        · rw [ih _ hd']
           simp [Option.map_map, Function.comp_def]
       rcases hq with rfl | rfl
       · simp only [List.map_cons, matchNodes, nodeOfV, if_true]
-        exact key _ (repG_seg _ hk false s hs)
+        exact key _ (repG_seg _ hk false s)
       · simp only [List.map_cons, matchNodes, nodeOfV, if_true]
-        exact key _ (repL_seg _ hk false s hs)
+        exact key _ (repL_seg _ hk false s)
 
 /-! ### capturing replacements -/
 
@@ -2880,11 +2838,10 @@ theorem pickOverrun_len (v : Str) (names caps : List Str) (h : names.length = ca
       · exact ih gs h
 
 /-- **keyMatch4** (binding): for a pattern of the documented form whose variables end at a '/' or at the end and
-    whose `*` is last, and a single-line key: the answer is `True` exactly when the key is denoted (`capsOf`
+    whose `*` is last, and EVERY key: the answer is `True` exactly when the key is denoted (`capsOf`
     finds the segment bound by every variable) and, by `bindCheck_spec`, equal names bound equal texts.
     Never raises. -/
-theorem keyMatch4_binding (k p : Str) (ts : List KTok) (hdoc : tok5 p = some ts) (hd : detForm ts = true)
-    (hk : noNL k = true) :
+theorem keyMatch4_binding (k p : Str) (ts : List KTok) (hdoc : tok5 p = some ts) (hd : detForm ts = true) :
     keyMatch4 k p = .ok (match capsOf ts k with
       | none => false
       | some caps => bindCheck [] ((namesVar varLenBraceGreedy nameBrace 0 p).zip caps)) := by
@@ -2894,7 +2851,7 @@ theorem keyMatch4_binding (k p : Str) (ts : List KTok) (hdoc : tok5 p = some ts)
   obtain ⟨hn1, hn2⟩ := names_repl varLenBraceGreedy okBraceName nameBrace varSyntax_braceGreedy 0 p ts hdoc
     (by simp [noSlash])
   simp only [keyMatch4, reMatchBody, hP _ (Nat.lt_succ_self _), Out.map, Out.bind, hn1,
-    matchNodes_caps .plus (Or.inl rfl) ts k hd hk]
+    matchNodes_caps .plus (Or.inl rfl) ts k hd]
   cases hc : capsOf ts k with
   | none => rfl
   | some caps =>
@@ -2904,7 +2861,7 @@ theorem keyMatch4_binding (k p : Str) (ts : List KTok) (hdoc : tok5 p = some ts)
 /-- **keyGet2** (binding): the text bound by the first variable named `v`; empty when the key is not denoted or
     no variable has that name -/
 theorem keyGet2_binding (k p v : Str) (ts : List KTok) (hdoc : tokVar varLenColon okAny 0 p = some ts)
-    (hd : detForm ts = true) (hk : noNL k = true) :
+    (hd : detForm ts = true) :
     keyGet2 k p v = .ok (match capsOf ts k with
       | none => []
       | some caps => (((namesVar varLenColon nameColon 0 p).zip caps).lookup v).getD []) := by
@@ -2915,7 +2872,7 @@ theorem keyGet2_binding (k p v : Str) (ts : List KTok) (hdoc : tokVar varLenColo
   have hr : rewriteGet2 p = subVar varLenColon capNotSlashEsc 0 (replSlashStar p) := by
     simp [rewriteGet2, headOK_ne_star _ hH]
   simp only [keyGet2, hr, reMatchBody, hP _ (Nat.lt_succ_self _), Out.map, Out.bind, hn1,
-    matchNodes_caps .plus (Or.inl rfl) ts k hd hk]
+    matchNodes_caps .plus (Or.inl rfl) ts k hd]
   cases hc : capsOf ts k with
   | none => rfl
   | some caps =>
@@ -2925,7 +2882,7 @@ theorem keyGet2_binding (k p v : Str) (ts : List KTok) (hdoc : tokVar varLenColo
 
 /-- **keyGet3** (binding): as keyGet2 with `{name}`; the lazy capture `([^/]+?)` binds the same segment -/
 theorem keyGet3_binding (k p v : Str) (ts : List KTok) (hdoc : tok3 p = some ts)
-    (hd : detForm ts = true) (hk : noNL k = true) :
+    (hd : detForm ts = true) :
     keyGet3 k p v = .ok (match capsOf ts k with
       | none => []
       | some caps => (((namesVar varLenBraceLazy nameBrace 0 p).zip caps).lookup v).getD []) := by
@@ -2937,7 +2894,7 @@ theorem keyGet3_binding (k p v : Str) (ts : List KTok) (hdoc : tok3 p = some ts)
   have hr : rewriteGet3 p = subVar varLenBraceLazy capNotSlashLazy 0 (replSlashStar p) := by
     simp [rewriteGet3, headOK_ne_star _ hH]
   simp only [keyGet3, hr, reMatchBody, hP _ (Nat.lt_succ_self _), Out.map, Out.bind, hn1,
-    matchNodes_caps .plusLazy (Or.inr rfl) ts k hd hk]
+    matchNodes_caps .plusLazy (Or.inr rfl) ts k hd]
   cases hc : capsOf ts k with
   | none => rfl
   | some caps =>
@@ -2965,19 +2922,19 @@ theorem bindForm_some (toks : Option (List KTok)) (ts : List KTok) (h : bindForm
     · simp at h; subst h; exact ⟨rfl, by assumption⟩
     · simp at h
 
-theorem keyMatch4_eq_spec (k p : Str) (b : Bool) (h : keyMatch4Spec k p = some b) (hk : noNL k = true) :
+theorem keyMatch4_eq_spec (k p : Str) (b : Bool) (h : keyMatch4Spec k p = some b) :
     keyMatch4 k p = .ok b := by
   simp only [keyMatch4Spec, Option.map_eq_some_iff] at h
   obtain ⟨ts, hts, rfl⟩ := h
   obtain ⟨h1, h2⟩ := bindForm_some _ _ hts
-  exact keyMatch4_binding k p ts h1 h2 hk
+  exact keyMatch4_binding k p ts h1 h2
 
-theorem keyGet2_eq_spec (k p v r : Str) (h : keyGet2Spec k p v = some r) (hk : noNL k = true) (hp : p ≠ ['*']) :
+theorem keyGet2_eq_spec (k p v r : Str) (h : keyGet2Spec k p v = some r) (hp : p ≠ ['*']) :
     keyGet2 k p v = .ok r := by
   simp only [keyGet2Spec, hp, if_false, Option.map_eq_some_iff] at h
   obtain ⟨ts, hts, rfl⟩ := h
   obtain ⟨h1, h2⟩ := bindForm_some _ _ hts
-  exact keyGet2_binding k p v ts h1 h2 hk
+  exact keyGet2_binding k p v ts h1 h2
 
 /-- the whole pattern `*` binds nothing: keyGet2 answers the empty text -/
 theorem keyGet2_star (k v : Str) : keyGet2 k ['*'] v = .ok [] := by
@@ -2989,12 +2946,12 @@ theorem keyGet2_star (k v : Str) : keyGet2 k ['*'] v = .ok [] := by
   | none => rfl
   | some caps => cases caps <;> simp [pickOverrun, pickGroup]
 
-theorem keyGet3_eq_spec (k p v r : Str) (h : keyGet3Spec k p v = some r) (hk : noNL k = true) :
+theorem keyGet3_eq_spec (k p v r : Str) (h : keyGet3Spec k p v = some r) :
     keyGet3 k p v = .ok r := by
   simp only [keyGet3Spec, Option.map_eq_some_iff] at h
   obtain ⟨ts, hts, rfl⟩ := h
   obtain ⟨h1, h2⟩ := bindForm_some _ _ hts
-  exact keyGet3_binding k p v ts h1 h2 hk
+  exact keyGet3_binding k p v ts h1 h2
 
 /-! ### declarative reading of the bindings -/
 
@@ -3115,13 +3072,12 @@ theorem capsOf_iff (ts : List KTok) (s : Str) (caps : List Str) (hd : detForm ts
 
 /-- **keyMatch4**, declaratively: `True` exactly when the key decomposes along the pattern (literals, one non-empty
     run without '/' per variable, any remainder for a final `*`) and equal names bound equal texts -/
-theorem keyMatch4_declarative (k p : Str) (ts : List KTok) (hdoc : tok5 p = some ts) (hd : detForm ts = true)
-    (hk : noNL k = true) :
+theorem keyMatch4_declarative (k p : Str) (ts : List KTok) (hdoc : tok5 p = some ts) (hd : detForm ts = true) :
     keyMatch4 k p = .ok true ↔
       ∃ caps, DenotesKB ts k caps ∧
         ∀ t v v', (t, v) ∈ (namesVar varLenBraceGreedy nameBrace 0 p).zip caps →
           (t, v') ∈ (namesVar varLenBraceGreedy nameBrace 0 p).zip caps → v = v' := by
-  rw [keyMatch4_binding k p ts hdoc hd hk]
+  rw [keyMatch4_binding k p ts hdoc hd]
   cases hc : capsOf ts k with
   | none =>
     constructor
@@ -3139,8 +3095,8 @@ theorem keyMatch4_declarative (k p : Str) (ts : List KTok) (hdoc : tok5 p = some
 
 /-- keyMatch4 never answers anything else than `True` / `False` on these inputs, and `False` is the complement -/
 theorem keyMatch4_total (k p : Str) (ts : List KTok) (hdoc : tok5 p = some ts) (hd : detForm ts = true)
-    (hk : noNL k = true) : keyMatch4 k p = .ok true ∨ keyMatch4 k p = .ok false := by
-  rw [keyMatch4_binding k p ts hdoc hd hk]
+    : keyMatch4 k p = .ok true ∨ keyMatch4 k p = .ok false := by
+  rw [keyMatch4_binding k p ts hdoc hd]
   cases capsOf ts k with
   | none => exact Or.inr rfl
   | some caps => cases bindCheck [] ((namesVar varLenBraceGreedy nameBrace 0 p).zip caps) <;> simp
@@ -3148,11 +3104,11 @@ theorem keyMatch4_total (k p : Str) (ts : List KTok) (hdoc : tok5 p = some ts) (
 /-- **keyGet2**, declaratively: when the key decomposes along the pattern with bindings `caps`, the answer is the
     text bound by the first variable named `v` (empty if there is none); when it does not decompose, the empty text -/
 theorem keyGet2_declarative (k p v : Str) (ts : List KTok) (hdoc : tokVar varLenColon okAny 0 p = some ts)
-    (hd : detForm ts = true) (hk : noNL k = true) :
+    (hd : detForm ts = true) :
     (∀ caps, DenotesKB ts k caps →
       keyGet2 k p v = .ok ((((namesVar varLenColon nameColon 0 p).zip caps).lookup v).getD [])) ∧
     ((¬ ∃ caps, DenotesKB ts k caps) → keyGet2 k p v = .ok []) := by
-  rw [keyGet2_binding k p v ts hdoc hd hk]
+  rw [keyGet2_binding k p v ts hdoc hd]
   constructor
   · intro caps h
     rw [(capsOf_iff ts k caps hd).2 h]
@@ -3163,11 +3119,11 @@ theorem keyGet2_declarative (k p v : Str) (ts : List KTok) (hdoc : tokVar varLen
 
 /-- **keyGet3**, declaratively (as keyGet2, `{name}` variables) -/
 theorem keyGet3_declarative (k p v : Str) (ts : List KTok) (hdoc : tok3 p = some ts)
-    (hd : detForm ts = true) (hk : noNL k = true) :
+    (hd : detForm ts = true) :
     (∀ caps, DenotesKB ts k caps →
       keyGet3 k p v = .ok ((((namesVar varLenBraceLazy nameBrace 0 p).zip caps).lookup v).getD [])) ∧
     ((¬ ∃ caps, DenotesKB ts k caps) → keyGet3 k p v = .ok []) := by
-  rw [keyGet3_binding k p v ts hdoc hd hk]
+  rw [keyGet3_binding k p v ts hdoc hd]
   constructor
   · intro caps h
     rw [(capsOf_iff ts k caps hd).2 h]
@@ -3181,110 +3137,27 @@ example : namesVar varLenBraceGreedy nameBrace 0 "/parent/{id}/child/{id}".toLis
   decide
 example : namesVar varLenColon nameColon 0 "/r/:res/:id".toList = ["res".toList, "id".toList] := by decide
 
-/-! ### soundness for EVERY key (line feeds included): never true for a key outside the pattern -/
+/-! ### soundness as a corollary: never true for a key outside the pattern (every key, line feeds included) -/
 
-theorem runB_mono (ok ok' : Char → Bool) (k k' : Str → Bool) (cs : Bool) (s : Str)
-    (hok : ∀ c, ok c = true → ok' c = true) (hk : ∀ x, k x = true → k' x = true)
-    (h : runB ok k cs s = true) : runB ok' k' cs s = true := by
-  induction s generalizing cs with
-  | nil => simp only [runB, Bool.and_eq_true] at h ⊢; exact ⟨h.1, hk _ h.2⟩
-  | cons c s ih =>
-    simp only [runB, Bool.or_eq_true, Bool.and_eq_true] at h ⊢
-    rcases h with ⟨h1, h2⟩ | ⟨h1, h2⟩
-    · exact Or.inl ⟨hok c h1, ih true h2⟩
-    · exact Or.inr ⟨h1, hk _ h2⟩
-
-theorem runB_any (k : Str → Bool) (s : Str) : runB (fun _ => true) k true s = anySuffix k s := by
-  induction s with
-  | nil => simp [runB, anySuffix]
-  | cons c s ih => simp [runB, anySuffix, ih, Bool.or_comm]
-
-/-- a successful match implies the denotation, whatever the key contains -/
-theorem matchNodes_sound (ts : List KTok) (s : Str)
-    (h : (matchNodes (ts.map (nodeOfV vnPlain)) s).isSome = true) : denK ts s = true := by
-  induction ts generalizing s with
-  | nil =>
-    simp only [List.map_nil, matchNodes, atEnd] at h
-    simp only [denK]
-    cases hs : s.isEmpty <;> simp_all
-  | cons t ts ih =>
-    cases t with
-    | lit c =>
-      cases s with
-      | nil => simp [matchNodes, nodeOfV] at h
-      | cons x s' =>
-        simp only [List.map_cons, matchNodes, nodeOfV, Atom.ok] at h
-        simp only [denK]
-        by_cases hx : x = c
-        · subst hx
-          simp only [beq_self_eq_true, if_true, Option.isSome_map, Bool.true_and] at h ⊢
-          exact ih s' h
-        · have : (x == c) = false := by simp [hx]
-          simp [this] at h
-    | star =>
-      simp only [List.map_cons, matchNodes, nodeOfV, Option.isSome_map, repG_isSome] at h
-      simp only [denK]
-      rw [← runB_any]
-      exact runB_mono _ _ _ _ true s (fun _ _ => rfl) (fun x hx => ih x hx) h
-    | var =>
-      have e1 : vnPlain.q = .plus := rfl
-      have e2 : vnPlain.atom = .notSlash := rfl
-      simp only [List.map_cons, matchNodes, nodeOfV, e1, e2, Option.isSome_map, repG_isSome] at h
-      cases s with
-      | nil => simp [runB] at h
-      | cons x s' =>
-        simp only [runB, Bool.false_and, Bool.or_false, Bool.and_eq_true] at h
-        simp only [denK, Bool.and_eq_true]
-        refine ⟨by simpa [Atom.ok] using h.1, ?_⟩
-        rw [← runB_notSlash]
-        exact runB_mono _ _ _ _ true s' (fun _ hc => hc) (fun x hx => ih x hx) h.2
-
-theorem reMatchBody_sound (body : Str) (ts : List KTok) (k : Str)
-    (hp : ∀ fuel, body.length < fuel → parseRe fuel body = .ok (ts.map (nodeOfV vnPlain))) :
-    ∃ b, asBool (reMatchBody body k) = .ok b ∧ (b = true → denK ts k = true) := by
-  refine ⟨(matchNodes (ts.map (nodeOfV vnPlain)) k).isSome, ?_, matchNodes_sound ts k⟩
-  simp [asBool, reMatchBody, hp (body.length + 1) (by omega), Out.map]
-
-/-- **keyMatch2, soundness for every key**: on a documented-form pattern the function never raises and never
-    answers `True` for a key the pattern does not denote — line feeds in the key included -/
+/-- **keyMatch2**: never raises and never answers `True` for a key the pattern does not denote -/
 theorem keyMatch2_sound (k p : Str) (ts : List KTok) (hdoc : docTok2 p = some ts) :
-    ∃ b, keyMatch2 k p = .ok b ∧ (b = true → denK ts k = true) := by
-  unfold docTok2 at hdoc
-  split at hdoc
-  · rename_i hp; subst hp
-    simp at hdoc; subst hdoc
-    have hr : rewrite2 ['*'] = capAll := by decide
-    have hparse : parseRe (capAll.length + 1) capAll = .ok [{ atom := .dot, q := .star, cap := true }] := by decide
-    refine ⟨(matchNodes [{ atom := .dot, q := .star, cap := true }] k).isSome, ?_, ?_⟩
-    · simp only [keyMatch2, hr, asBool, reMatchBody, hparse, Out.map]
-    · intro h
-      apply matchNodes_sound [.star] k
-      simpa [matchNodes, nodeOfV, Option.isSome_map] using h
-  · obtain ⟨hH, hP⟩ := compile_tokVar varLenColon okAny reNotSlashEsc vnPlain varSyntax_colon
-      parseItem_notSlashEsc '[' _ rfl (by decide) 0 p ts hdoc (by simp [noSlash])
-    have hr : rewrite2 p = subVar varLenColon reNotSlashEsc 0 (replSlashStar p) := by
-      simp [rewrite2, headOK_ne_star _ hH]
-    rw [keyMatch2, hr]
-    exact reMatchBody_sound _ ts k hP
+    ∃ b, keyMatch2 k p = .ok b ∧ (b = true → denK ts k = true) :=
+  ⟨denK ts k, keyMatch2_spec k p ts hdoc, id⟩
 
 theorem keyMatch3_sound (k p : Str) (ts : List KTok) (hdoc : tok3 p = some ts) :
-    ∃ b, keyMatch3 k p = .ok b ∧ (b = true → denK ts k = true) := by
-  obtain ⟨_, hP⟩ := compile_tokVar varLenBraceLazy okAny reNotSlashEsc vnPlain varSyntax_braceLazy
-    parseItem_notSlashEsc '[' _ rfl (by decide) 0 p ts hdoc (by simp [noSlash])
-  rw [keyMatch3, rewrite3]
-  exact reMatchBody_sound _ ts k hP
+    ∃ b, keyMatch3 k p = .ok b ∧ (b = true → denK ts k = true) :=
+  ⟨denK ts k, keyMatch3_spec k p ts hdoc, id⟩
 
 theorem keyMatch5_sound (k p : Str) (ts : List KTok) (hdoc : tok5 p = some ts) :
-    ∃ b, keyMatch5 k p = .ok b ∧ (b = true → denK ts (dropQuery k) = true) := by
-  obtain ⟨_, hP⟩ := compile_tokVar varLenBraceGreedy okBraceName reNotSlash vnPlain varSyntax_braceGreedy
-    parseItem_notSlash '[' _ rfl (by decide) 0 p ts hdoc (by simp [noSlash])
-  rw [keyMatch5, rewrite5]
-  exact reMatchBody_sound _ ts (dropQuery k) hP
+    ∃ b, keyMatch5 k p = .ok b ∧ (b = true → denK ts (dropQuery k) = true) :=
+  ⟨denK ts (dropQuery k), keyMatch5_spec k p ts hdoc, id⟩
 
-/-- the trailing line feed is no longer accepted (it was, with `$`) -/
+/-- a trailing line feed is not accepted (F21-NLa: it was, with `$`) -/
 example : keyMatch2 "/a\n".toList "/a".toList = .ok false := by decide
-/-- what remains (open finding): `*` is `.*`, and `.` does not match a line feed -/
-example : keyMatch2 "/a/b\nc".toList "/a/*".toList = .ok false ∧
+/-- `*` is any remainder, line feeds included (F21-NLb: it was not, `.` without `(?s)`) -/
+example : keyMatch2 "/a/b\nc".toList "/a/*".toList = .ok true ∧
     (docTok2 "/a/*".toList).map (fun ts => denK ts "/a/b\nc".toList) = some true := by decide
+/-- a variable is one non-empty run without '/', which may contain a line feed (`[^/]+` always matched it) -/
+example : keyGet2 "/a/1\n2/x".toList "/a/:id/x".toList "id".toList = .ok "1\n2".toList := by decide
 
 end Casbin.C13
